@@ -199,12 +199,12 @@ Section RecvInv.
         assert (Hm : Q m) by (exact (recv_iter_got _ _ _ Ht E)).
         split; [split; cbn; auto|repeat constructor; cbn; auto].
         apply Forall_upd_nth; [apply Forall_wake_r, Hr|exact Hm].
-      + split; [split; cbn; auto|constructor]. apply Forall_upd_nth; cbn; auto. exact I.
+      + split; [split; cbn; auto|constructor]. apply Forall_upd_nth; cbn; auto.
     - (* ARecvCancel *)
       destruct (nth_error (recvs s) j) as [cl|]; [|discriminate].
       destruct (r_st cl); try discriminate.
       destruct (blocked (r_w cl)); [|discriminate]. inversion H; subst.
-      split; [split; cbn; auto|repeat constructor]. apply Forall_upd_nth; cbn; auto. exact I.
+      split; [split; cbn; auto|repeat constructor]. apply Forall_upd_nth; cbn; auto.
   Qed.
 
   Lemma exec_inv19 s a s' o :
@@ -233,7 +233,7 @@ Section RecvInv.
 End RecvInv.
 
 Lemma inv19_init Q : inv19 Q c_init.
-Proof. split; cbn; auto. exact I. Qed.
+Proof. split; cbn; auto. Qed.
 
 (* Every message Recv returns, in any history and against any relay, is a
    message the relay delivered in this history that is signed by the session
@@ -305,17 +305,21 @@ Theorem bad_message_ends_session : forall c s cn m,
             (k = EVerify \/ k = EPeer).
 Proof.
   intros c s cn m Hc Hr Hbad. cbn [step]. rewrite Hc, Hr. cbn [reader].
-  unfold check_recv, obind in *. destruct (verify_msg m) as [k0| |] eqn:Ev.
+  unfold check_recv, obind in *.
+  assert (Hv : forall k, verify_msg m = Err k -> k = EVerify).
+  { intros k. unfold verify_msg. destruct (m_data m) as [|d ds]; [intros E; inversion E; auto|].
+    destruct (m_from m) as [k0|]; [|intros E; inversion E; auto].
+    destruct (m_sig m) as [k' cx b|]; [|intros E; inversion E; auto].
+    destruct (Nat.eqb k' k0 && bytes_eqb cx sig_ctx && bytes_eqb b (d :: ds)); intros E; inversion E; auto. }
+  assert (Hp : verify_msg m <> Panic).
+  { unfold verify_msg. destruct (m_data m) as [|d ds]; [discriminate|].
+    destruct (m_from m) as [k0|]; [|discriminate].
+    destruct (m_sig m) as [k' cx b|]; [|discriminate].
+    destruct (Nat.eqb k' k0 && bytes_eqb cx sig_ctx && bytes_eqb b (d :: ds)); discriminate. }
+  destruct (verify_msg m) as [k0|k|] eqn:Ev.
   - destruct (Nat.eqb k0 (peer_key c)); [congruence|]. exists EPeer. split; auto.
-  - unfold verify_msg in Ev.
-    assert (k = EVerify).
-    { destruct (m_data m); [inversion Ev; auto|]. destruct (m_from m); [|inversion Ev; auto].
-      destruct (m_sig m); [|inversion Ev; auto].
-      destruct (Nat.eqb key k0 && bytes_eqb ctx sig_ctx && bytes_eqb body (z :: l)); inversion Ev; auto. }
-    subst k. exists EVerify. split; auto.
-  - unfold verify_msg in Ev. destruct (m_data m); [discriminate|]. destruct (m_from m); [|discriminate].
-    destruct (m_sig m); [|discriminate].
-    destruct (Nat.eqb key k && bytes_eqb ctx sig_ctx && bytes_eqb body (z :: l)); discriminate.
+  - rewrite (Hv k eq_refl). exists EVerify. split; auto.
+  - congruence.
 Qed.
 
 Theorem reader_stopped_after_error : forall c s cn k r,
